@@ -31,8 +31,10 @@ OUTSIDE = ["more than n triggers per event; triggers added while the event fires
            "exhaustive on its own, pairs only as listed in the bounds)",
            "the reactor level wrappers addSystemEventTrigger/fireSystemEvent (the _ThreePhaseEvent is driven "
            "directly)"]
-ASSUMPTIONS = ["errors of raising triggers go to twisted's global log publisher, which only buffers events in "
-               "memory in these processes (logging is never started); nothing is stubbed",
+ASSUMPTIONS = ["twisted's global log publisher: the temporary pre-logging observer (stderr printer + buffer) is replaced "
+               "at import of the harness module by an in-memory list observer; the logging calls made by "
+               "_systemEventHandler are the real ones and the oracle checks that each trigger exception is reported "
+               "exactly once",
                "DeprecationWarning emitted for removing an already-run before-trigger is captured with "
                "warnings.catch_warnings(record=True)",
                "Deferred / DeferredList are the real ones"]
@@ -41,6 +43,27 @@ EXPLANATION = ("symbolic phases, behaviours, removals (before, during, while wai
                "after every Deferred firing")
 
 PH = ("before", "during", "after")
+
+# Errors of raising triggers are reported through twisted.logger (Logger.failure, level critical).  Before
+# logging is started the global publisher prints critical events to stderr and buffers the rest: replace that
+# temporary observer by an in-memory list (no I/O under the solver) which the oracle also inspects.
+from twisted.logger import globalLogPublisher  # noqa: E402
+from twisted.logger._global import globalLogBeginner  # noqa: E402
+
+_LOGGED = []
+
+
+def _observer(event):
+    f = event.get("log_failure")
+    _LOGGED.append(f.type if f is not None else None)
+
+
+if globalLogBeginner._temporaryObserver is not None:
+    try:
+        globalLogPublisher.removeObserver(globalLogBeginner._temporaryObserver)
+    except ValueError:
+        pass
+globalLogPublisher.addObserver(_observer)
 
 
 def _fail(msg):
@@ -80,6 +103,7 @@ def fire_order(kinds: List[int], raiser: int, fire: List[int], failfirst: bool) 
     log = []
     ds = []
     argerr = []
+    del _LOGGED[:]
 
     def mk(i, kind):
         def trig(*a, **kw):
@@ -101,7 +125,7 @@ def fire_order(kinds: List[int], raiser: int, fire: List[int], failfirst: bool) 
     nd = 0
     for i in range(n):
         k = kinds[i]
-        p = 0 if k <= 1 else k - 1
+        p = 0 if k <= 1 else 1 if k == 2 else 2
         ev.addTrigger(_phase_name(p), mk(i, k), i, "x", key=i)
         exp[p].append(i)
         if k == 1 and i != raiser:
@@ -111,7 +135,6 @@ def fire_order(kinds: List[int], raiser: int, fire: List[int], failfirst: bool) 
     if len(ds) != nd:
         return _fail("number of Deferreds")
     left = list(ds)
-    fired_fail = []
     for s in range(nd):
         # before phase done, in registration order; nothing else may run while a Deferred is pending
         if log != exp[0] or ev.state != "BEFORE":
@@ -136,6 +159,8 @@ def fire_order(kinds: List[int], raiser: int, fire: List[int], failfirst: bool) 
         return _fail("ran %r, expected %r" % (log, full))
     if argerr or not _empty(ev):
         return _fail("arguments / leftover state")
+    if _LOGGED != ([_Boom] if raiser < n else []):
+        return _fail("trigger exception not reported exactly once")
     ev.fireEvent()                    # triggers are consumed: nothing runs twice
     return log == full and _empty(ev)
 
@@ -153,6 +178,7 @@ def remove_before(phases: List[int], rm: List[int]) -> bool:
     log = []
     handles = []
     exp = [[], [], []]
+    del _LOGGED[:]
     for i in range(n):
         p = phases[i]
         handles.append(ev.addTrigger(_phase_name(p), log.append, i))
@@ -191,7 +217,7 @@ def remove_before(phases: List[int], rm: List[int]) -> bool:
     cover()
     if log != full:
         return _fail("ran %r, expected %r" % (log, full))
-    return _empty(ev)
+    return _empty(ev) and _LOGGED == []
 
 
 # ---------------------------------------------------------------- removal while the event fires
@@ -209,6 +235,7 @@ def remove_during(phases: List[int], when: int, target: int, withd: bool) -> boo
     log = []
     handles = []
     ds = []
+    del _LOGGED[:]
     tgt = None
     for c in range(n):
         if target == c:
@@ -295,7 +322,7 @@ def remove_during(phases: List[int], when: int, target: int, withd: bool) -> boo
     cover()
     if log != m_log:
         return _fail("ran %r, expected %r" % (log, m_log))
-    return _empty(ev)
+    return _empty(ev) and _LOGGED == []
 
 
 def _first_two(var, vals):
